@@ -8,7 +8,19 @@ use std::time::Duration;
 use brc20_prog::Brc20ProgConfig;
 use serde_json::Value;
 
+/// A port nobody else in this sandbox is likely to grab between the probe and the server's bind: several harness
+/// processes run side by side, so each draws from its own pid-derived range and remembers what it handed out.
 pub fn free_port() -> u16 {
+    use std::sync::atomic::{AtomicU32, Ordering};
+    static NEXT: AtomicU32 = AtomicU32::new(0);
+    let base = 20000 + (std::process::id() % 350) * 100;
+    for _ in 0..200 {
+        let k = NEXT.fetch_add(1, Ordering::SeqCst) % 100;
+        let port = (base + k) as u16;
+        if std::net::TcpListener::bind(("127.0.0.1", port)).is_ok() {
+            return port;
+        }
+    }
     let l = std::net::TcpListener::bind("127.0.0.1:0").unwrap();
     l.local_addr().unwrap().port()
 }
